@@ -19,7 +19,7 @@ PI = Decimal("3.14159265358979323846264338327950288419716939937510582097494")
 THEOREMS = ["Yaw.C02.chunks_flatten", "Yaw.C02.arraySplit_flatten", "Yaw.C02.writer_flush_complete",
             "Yaw.C02.pipeline_multiset", "Yaw.C02.arrivals_perm", "Yaw.C02.sequential_exact",
             "Yaw.C02.pipeline_independent", "Yaw.C02.header_roundtrip", "Yaw.C02.glue_pinned"]
-RULE = ("catalog creation from data frames (column dtypes f8/f4/i8/i4/u1), FITS (big-endian), HDF5 and Parquet "
+RULE = ("catalog creation from data frames (column dtypes f8/f4/i8/i4/u1), FITS (big-endian), HDF5 and Parquet (uniform and non-uniform row groups) "
         "(several row-group sizes), lengths around multiples of the chunk size, chunk sizes 1..n+1, optional columns in "
         "all combinations, degrees/radian, patch centres / patch-index column / generated centres, 1..4 worker "
         "processes (real pools), progress on/off: per-patch multisets of the 64-bit record patterns of the new and of "
@@ -95,7 +95,10 @@ def run(prop, tier, seed, replay):
                 ra, dec = np.deg2rad(ra.astype("f8")), np.deg2rad(dec.astype("f8"))
                 if dtype == "f4":
                     ra, dec = ra.astype("f4"), dec.astype("f4")
-            w = nprng.choice([1, 2, 3, 0.5], n).astype(rng.choice(["f8", "i8"]) if source == "df" else "f8") if has_w else None
+            # (integer weight columns get integral weights: 0.5 would be cast to 0, and a patch whose weights sum to
+            # zero has no weighted centre - creation refuses it loudly, which is not what this property is about)
+            wdt = (rng.choice(["f8", "i8"]) if source == "df" else "f8") if has_w else None
+            w = nprng.choice([1, 2, 3] if wdt == "i8" else [1, 2, 3, 0.5], n).astype(wdt) if has_w else None
             z = nprng.uniform(0.01, 2, n) if has_z else None
             cols = {"ra": ra, "dec": dec, "weights": w, "redshifts": z}
             rep = {"n": n, "chunksize": c, "workers": workers, "source": source, "degrees": degrees, "mode": mode,
@@ -137,7 +140,19 @@ def run(prop, tier, seed, replay):
                                 for k, v in frame.items():
                                     f[k] = v
                         else:
-                            pq.write_table(pa.table(frame), path, row_group_size=rng.choice([1, 3, 8, 1000]))
+                            tab = pa.table(frame)
+                            if (ci // 6) % 2 == 1 or c < 3:
+                                pq.write_table(tab, path, row_group_size=rng.choice([1, 3, 8, 1000]))
+                            else:       # row groups of differing sizes (files appended to / written by other tools)
+                                with pq.ParquetWriter(path, tab.schema) as wr:
+                                    at = 0
+                                    first = True
+                                    while at < len(tab):
+                                        k = max(2, c - 1) if first else rng.choice([1, 1, 2])   # c = chunk size
+                                        first = False
+                                        wr.write_table(tab.slice(at, k))
+                                        at += k
+                                ck.count("parquet:non-uniform-row-groups")
                         cat = Catalog.from_file(root / f"c{ci}", path, **kw)
                         path.unlink()
             except Exception as e:  # noqa: BLE001
